@@ -12,9 +12,9 @@ POINTERS = ["p_id_elternteil_1", "p_id_elternteil_2", "p_id_kindergeld_empf", "p
             "p_id_einstandspartner", "p_id_betreuungsk_träger"]
 
 
-def closed_population(rnd, year, n_hh, id_offset, hh_offset, style):
+def closed_population(rnd, year, n_hh, id_offset, hh_offset, style, tpl=None):
     """a population closed under pointers (no parent in another population), ids from disjoint ranges"""
-    tpl = [t for t in popgen.TEMPLATES]
+    tpl = tpl or [t for t in popgen.TEMPLATES]
     pop = popgen.population(rnd, year, n_hh, templates=tpl, id_style=style)
     ids = {p["p_id"] for p in pop}
     for p in pop:
@@ -65,7 +65,15 @@ def run(ctx, res):
         year = int(impl.iso(o)[:4])
         nodes = metam.default_nodes(d)
         for rep in range(2 if ctx.tier == "quick" else 8):
-            A = closed_population(rnd, year, rnd.randint(2, 6), 0, 0, "sparse")
+            A = closed_population(rnd, year, rnd.randint(2, 6), 0, 0, "sparse",
+                                  tpl=["pensioners", "pensioners", "single_pensioner", "married", "couple_kids"] if rep == 0 else None)
+            if rep == 0:
+                # make the pensioners of A entitled to a Grundrente supplement with income crediting (married and single)
+                for p in A:
+                    if not p["kind"] and p["alter"] >= 60:
+                        p.update(rentner=True, jahr_renteneintr=year - max(0, p["alter"] - 65), entgeltp_west=rnd.choice([10.0, 20.0]), entgeltp_ost=0.0,
+                                 grundr_zeiten=rnd.choice([400, 420, 480]), grundr_bew_zeiten=rnd.choice([400, 420]), grundr_entgeltp=rnd.choice([8.0, 12.0]),
+                                 priv_rente_m=rnd.choice([0.0, 900.0, 1500.0]), bruttolohn_m=0.0)
             B = closed_population(rnd, year, rnd.randint(2, 8), 100000, 5000, rnd.choice(["sparse", "unsorted"]))
             dfA, dfB = popgen.to_frame(A), popgen.to_frame(B)
             try:
@@ -116,6 +124,27 @@ def run(ctx, res):
             except Exception as ex:  # noqa: BLE001
                 res.add_violation(f"relabel-raises:{type(ex).__name__}", f"relabelled population fails on {impl.iso(o)}: {type(ex).__name__}: {str(ex)[:200]}",
                                   dict(kind="relabel-raises", date=impl.iso(o), error=str(ex)[:500]), True)
+            # relabellings that give the label 0 to a person somebody points to (a spouse, a parent, a benefit recipient)
+            pointed = sorted({p[k] for p in A for k in POINTERS if p[k] >= 0})
+            spouses = sorted({p["p_id_ehepartner"] for p in A if p["p_id_ehepartner"] >= 0})
+            for target0 in (rnd.sample(spouses, min(len(spouses), 2)) + rnd.sample(pointed, min(len(pointed), 2 if ctx.tier == "quick" else 6))):
+                rho0 = {i: i + 1 for i in ids}
+                rho0[target0] = 0
+                A3 = []
+                for p in A:
+                    q = dict(p)
+                    q["p_id"] = rho0[p["p_id"]]
+                    for k in POINTERS:
+                        q[k] = rho0[p[k]] if p[k] >= 0 else -1
+                    A3.append(q)
+                try:
+                    outA3, _ = engine.simulate(popgen.to_frame(A3), o, targets=nodes)
+                    stats["relabellings"] += 1
+                    stats["zero_label_relabellings"] = stats.get("zero_label_relabellings", 0) + 1
+                    compare(outA, outA3, pidsA, nodes, f"relabelling p_id (person {target0} gets the label 0)", o, res, stats, exact=False)
+                except Exception as ex:  # noqa: BLE001
+                    res.add_violation(f"relabel-raises:{type(ex).__name__}", f"relabelled population fails on {impl.iso(o)}: {type(ex).__name__}: {str(ex)[:200]}",
+                                      dict(kind="relabel-raises", date=impl.iso(o), error=str(ex)[:500]), True)
             if len(res.samples) < 3:
                 res.samples.append(dict(unit="A vs A+B", date=impl.iso(o), rows_A=len(dfA), rows_B=len(dfB), p_ids_A=pidsA[:8], first_p_ids_B=list(dfB["p_id"])[:5]))
     res.evaluations += stats["joint_runs"] + stats["relabellings"]
